@@ -566,3 +566,15 @@ PROPS["C02"]["manifest"]["text"] += (
 PROPS["C02"]["manifest"]["note"] = PROPS["C02"]["manifest"]["note"].replace(
     "per-request context cache and RocksDB iterators are covered by the correspondence only;",
     "RocksDB iterators (SeekForPrev) and Get errors are trusted / not modelled;")
+PROPS["C09"]["manifest"]["text"] = PROPS["C09"]["manifest"]["text"].replace(
+    "preprocess_preserves_compile (an accepted file",
+    "text_normal_form / text_normal_form_dns (for every line text that parses, names with empty labels included - a.b., .a.b, "
+    "a..b -, the printed text parses to the normal form of the record, which compiles to the same keys and values and prints "
+    "to the same text: parse_marshal_norm, parse_yields_struct, name_writers_normalise); preprocess_preserves_compile (an accepted file")
+PROPS["C09"]["manifest"]["note"] = (
+    "Partial: remaining hypotheses NamesShort (no label whose quoted form reaches 256 bytes: text_normal_form_full_false, a "
+    "64-byte label of NULs, outside DNS's 63-byte limit), PrintsDotStar ('.' and '*' printable - true of Go's table, both "
+    "parts shown necessary), serial < 2^32, LibOK (the net.IP / IPNet and svcb.ParamList text round trips, C18).")
+PROPS["C10"]["manifest"]["note"] = PROPS["C10"]["manifest"].get("note", "") + (
+    " Files with subnets in the default map (classic '%lo,prefix' lines without map id) get no Spec verdict (LocIdsOK, "
+    "Props/C03); for them the harness checks directly that a name without any '8' map is answered with scope 0.")
